@@ -84,6 +84,11 @@ def lines_for(spec, rep, want=("geom", "pic", "scale", "layout", "size")):
         dots, cross = along(tl, g["dots"])
         if any(c != 0 for c in cross):
             rep.prop_fail.append(("a dot is not on the axis line", {"case": {"kind": "timeline", "spec": spec}}))
+        if "scale" in want and "domain" not in spec["options"] and len(spec["data"]) > 0:
+            # the axis domain is derived from the data, so it covers them: no dot beyond either end of the axis line
+            L_ = tl.getInnerDims()[1] if d in ("left", "right") else tl.getInnerDims()[0]
+            if any(not (-1e-6 <= v <= L_ + 1e-6) for v in dots):
+                rep.prop_fail.append(("a dot lies beyond the end of the axis line although the axis domain is derived from the data (%s)" % backend, {"case": {"kind": "timeline", "spec": spec}}))
         if "geom" in want:
             out.append(("geom|%s|%s|%s|%d|%s|%s|%s|%s" % (d, fr(ro["nodeHeight"]), fr(ro["layerGap"]), c08, node_states(tl), boxes_str(g["boxes"]),
                                                          ",".join(fr(v) for v in dots), ";".join(steps_str(l) for l in g["links"])), "geom-" + backend))
